@@ -749,7 +749,11 @@ func runL1x(c *lib.Ctx, ls *lib.Livesim, id string, in c11in, failIn any) (o l1o
 		regen = "regen-base[publishTime-moved]:"
 		if dOld.Root().SelectAttrValue("publishTime", "") == o.PT1 {
 			// two different MPDs with one publishTime: the MPD changed between publishTime and t1 without a new publishTime
-			regen = "regen-base[same-publishTime]:"
+			regen = "regen-base[same-publishTime,other]:"
+			if windowStartOnly(dOld.Root(), d1.Root()) {
+				// ... and the two differ solely at the old end of the timelines (the time-shift window moved on)
+				regen = "regen-base[same-publishTime,window-start-only]:"
+			}
 		}
 		regenWhy = "; the MPD regenerated for publishTime+1ms differs from the MPD served at t1: " + firstDiff(canonical(dOld.Root()), canonical(d1.Root()))
 	}
